@@ -206,7 +206,7 @@ PROPS = {
     },
     "C23": {
         "level": "model_checking",
-        "kani": ["c23_degrees", "c22_boundary"],
+        "kani": ["c23_degrees", "c22_boundary", "c23_periodic"],
         "verus": [],
         "level_text": "Integer clauses as contracts: evaluation-degree formula and sufficient power-of-two minimum blowup for "
                       "every base degree and trace length 2^3..2^31 (cycle shapes [], [c], [c, d]); enough composition "
